@@ -23,6 +23,7 @@ type Out struct {
 	Samples  []string
 	Notes    map[string]any
 	rng      *rand.Rand
+	last     string
 }
 
 func NewOut(path string, seed int64) *Out {
@@ -44,6 +45,7 @@ func NewOut(path string, seed int64) *Out {
 // case counts towards distinct_nontrivial (by the stream's stated rule).
 func (o *Out) Emit(kind string, nontrivial bool, op string, result string) {
 	line := op + " | " + result
+	o.last = result
 	o.w.WriteString(line)
 	o.w.WriteByte('\n')
 	o.N++
@@ -52,7 +54,10 @@ func (o *Out) Emit(kind string, nontrivial bool, op string, result string) {
 	if i := strings.IndexByte(rk, ' '); i >= 0 {
 		rk = rk[:i]
 	}
-	if len(rk) > 12 {
+	if i := strings.IndexByte(rk, '='); i >= 0 {
+		rk = rk[:i]
+	}
+	if len(rk) > 12 || (len(rk) > 1 && rk[0] == 'x') {
 		rk = "value"
 	}
 	o.Results[kind+"→"+rk]++
@@ -175,3 +180,6 @@ func EdgeU64(r *rand.Rand) uint64 {
 		return r.Uint64() >> uint(r.Intn(64))
 	}
 }
+
+// Last returns the result part of the most recently emitted line.
+func (o *Out) Last() string { return o.last }
